@@ -517,7 +517,7 @@ theorem kvt_deleteServicePost (s : State) (node id : String) (v : Svc) : kvt (de
   rw [deleteServicePost_eq]
   split <;> simp [kvt, dspMid]
 
-theorem list_closed (hp : p.head? ≠ some 0) (s0 : State) : PrimClosed i (TreeOk p) (fun _ _ _ => True) (fun _ => True) (ListStep p i s0) where
+theorem list_closed (hp : p.head? ≠ some 0) (s0 : State) : PrimClosed i { T := TreeOk p } (ListStep p i s0) where
   kvInsert s e he h := list_kvInsert e he h
   kvDelete s s' k hr h := list_kvDelete hp hr h
   kvDeleteTree s d hd h := list_kvDeleteTree d hd h
@@ -525,10 +525,11 @@ theorem list_closed (hp : p.head? ≠ some 0) (s0 : State) : PrimClosed i (TreeO
   invalidateKeys s sess h := list_invalidateKeys hp sess h
   dropSessionRefs s id h :=
     h.ofTbl (tbl_dropSessionRefs s id) (congrArg Prod.fst (kvt_dropSessionRefs s id)) (congrArg Prod.snd (kvt_dropSessionRefs s id))
-  checkPrep s s1 pr hc hc1 md hr h :=
+  checkPrep s s1 pr hc hc1 md hr _ h :=
     h.ofTbl (tbl_checkPrep hr) (congrArg Prod.fst (kvt_checkPrep hr)) (congrArg Prod.snd (kvt_checkPrep hr))
-  checkFinish s pr hc md h :=
+  checkFinish _ _ s pr _ hc md _ _ _ _ h :=
     h.ofTbl (tbl_checkFinish s pr hc md) (congrArg Prod.fst (kvt_checkFinish s pr hc md)) (congrArg Prod.snd (kvt_checkFinish s pr hc md))
+  chkRows _ _ _ _ := trivial
   insertSession s x h := h.ofTbl (tbl_insertSession s x) rfl rfl
   pqSet s s' id sess hr h := h.ofTbl (tbl_pqSet hr) (congrArg Prod.fst (kvt_pqSet hr)) (congrArg Prod.snd (kvt_pqSet hr))
   pqDelete s id h := h.ofTbl (tbl_pqDelete s id) (congrArg Prod.fst (kvt_pqDelete s id)) (congrArg Prod.snd (kvt_pqDelete s id))
@@ -538,12 +539,12 @@ theorem list_closed (hp : p.head? ≠ some 0) (s0 : State) : PrimClosed i (TreeO
   deleteCheckPre s node id x _ h :=
     h.ofTbl (tbl_deleteCheckPre s node id x) (congrArg Prod.fst (kvt_deleteCheckPre s node id x))
       (congrArg Prod.snd (kvt_deleteCheckPre s node id x))
-  deleteServicePost s node id v _ h :=
+  deleteServicePost s node id v _ _ _ h :=
     h.ofTbl (tbl_deleteServicePost s node id v) (congrArg Prod.fst (kvt_deleteServicePost s node id v))
       (congrArg Prod.snd (kvt_deleteServicePost s node id v))
-  deleteNodePost s name h := h.ofTbl (tbl_deleteNodePost s name) rfl rfl
+  deleteNodePost s name _ _ _ h := h.ofTbl (tbl_deleteNodePost s name) rfl rfl
   bumpServiceIdx s name h := h.ofTbl (tbl_bump s name) rfl rfl
-  svcInsert s v hv _ _ h := h.ofTbl (tbl_svcInsert s v hv) (by simp [svcInsert]) (by simp [svcInsert])
+  svcInsert s v hv _ _ _ h := h.ofTbl (tbl_svcInsert s v hv) (by simp [svcInsert]) (by simp [svcInsert])
 
 /-! ### the bound alone is closed under everything -/
 
@@ -554,7 +555,7 @@ theorem KvBound.frame {s s' : State} (h : KvBound i s) (hk : s'.kvs = s.kvs) (ht
 theorem KvBound.ofTbl {s s' : State} (h : KvBound i s) (t : Tbl1 i s s') (hk : kvt s' = kvt s) : KvBound i s' :=
   h.frame (congrArg Prod.fst hk) (congrArg Prod.snd hk) (t.ops.le h.idx)
 
-theorem bound_closed (i : Nat) : PrimClosed i (fun _ => True) (fun _ _ _ => True) (fun _ => True) (KvBound i) where
+theorem bound_closed (i : Nat) : PrimClosed i Guard.any (KvBound i) where
   kvInsert s e he h := by
     refine ⟨(tbl_kvInsert s e he).ops.le h.idx, ?_, h.tombs⟩
     intro x hx
@@ -616,23 +617,24 @@ theorem bound_closed (i : Nat) : PrimClosed i (fun _ => True) (fun _ _ _ => True
         simp only [hb] at hi
         exact ⟨hi, fun x hx => h.kvs x (List.mem_filter.mp hx).1, tombs_bound_foldl _ _ h.tombs⟩
   dropSessionRefs s id h := h.ofTbl (tbl_dropSessionRefs s id) (kvt_dropSessionRefs s id)
-  checkPrep s s1 pr hc hc1 md hr h := h.ofTbl (tbl_checkPrep hr) (kvt_checkPrep hr)
-  checkFinish s pr hc md h := h.ofTbl (tbl_checkFinish s pr hc md) (kvt_checkFinish s pr hc md)
+  checkPrep s s1 pr hc hc1 md hr _ h := h.ofTbl (tbl_checkPrep hr) (kvt_checkPrep hr)
+  checkFinish _ _ s pr _ hc md _ _ _ _ h := h.ofTbl (tbl_checkFinish s pr hc md) (kvt_checkFinish s pr hc md)
+  chkRows _ _ _ _ := trivial
   insertSession s x h := h.ofTbl (tbl_insertSession s x) rfl
   pqSet s s' id sess hr h := h.ofTbl (tbl_pqSet hr) (kvt_pqSet hr)
   pqDelete s id h := h.ofTbl (tbl_pqDelete s id) (kvt_pqDelete s id)
   nodeInsert s n hn _ h := h.ofTbl (tbl_nodeInsert s n hn) (kvt_nodeInsert s n)
   nodeNames _ _ _ _ := trivial
   deleteCheckPre s node id x _ h := h.ofTbl (tbl_deleteCheckPre s node id x) (kvt_deleteCheckPre s node id x)
-  deleteServicePost s node id v _ h := h.ofTbl (tbl_deleteServicePost s node id v) (kvt_deleteServicePost s node id v)
-  deleteNodePost s name h := h.ofTbl (tbl_deleteNodePost s name) rfl
+  deleteServicePost s node id v _ _ _ h := h.ofTbl (tbl_deleteServicePost s node id v) (kvt_deleteServicePost s node id v)
+  deleteNodePost s name _ _ _ h := h.ofTbl (tbl_deleteNodePost s name) rfl
   bumpServiceIdx s name h := h.ofTbl (tbl_bump s name) rfl
-  svcInsert s v hv _ _ h := h.ofTbl (tbl_svcInsert s v hv) (by simp [kvt, svcInsert])
+  svcInsert s v hv _ _ _ h := h.ofTbl (tbl_svcInsert s v hv) (by simp [kvt, svcInsert])
 
 /-- every stored index is bounded by the index of the last applied command -/
 theorem kvBound_step {m : Nat} {s : State} (c : Cmd) (h : KvBound m s) (hmi : m ≤ i) : KvBound i (apply s i c).1 := by
   by_cases hc : ∀ u, c ≠ .reap u
-  · exact pc_apply (bound_closed i) c hc (fun _ _ => trivial) (fun _ _ => trivial) (fun _ _ => trivial) (h.mono hmi)
+  · exact pc_apply (bound_closed i) c hc (Cmd.ok_any c) (h.mono hmi)
   · have : ∃ u, c = .reap u := by
       cases c <;> simp at hc ⊢
     obtain ⟨u, rfl⟩ := this
@@ -642,6 +644,6 @@ theorem kvBound_step {m : Nat} {s : State} (c : Cmd) (h : KvBound m s) (hmi : m 
 /-- the list query across one command (not a reap) whose tree deletes are not above the prefix -/
 theorem list_apply (hp : p.head? ≠ some 0) {m : Nat} {s : State} (c : Cmd) (hc : ∀ u, c ≠ .reap u)
     (hT : ∀ d ∈ c.trees, TreeOk p d) (h : KvBound m s) (hmi : m ≤ i) : ListStep p i s (apply s i c).1 :=
-  pc_apply (list_closed hp s) c hc hT (fun _ _ => trivial) (fun _ _ => trivial) ⟨h.mono hmi, Or.inl ⟨rfl, rfl⟩⟩
+  pc_apply (list_closed hp s) c hc ⟨hT, fun _ _ => trivial, fun _ _ => trivial, fun _ _ => trivial⟩ ⟨h.mono hmi, Or.inl ⟨rfl, rfl⟩⟩
 
 end CV.Store
